@@ -70,6 +70,105 @@
 #define RB_RANGE_TOUCHES32(end32, start, addr, n) \
   (((end32) <= (addr)) ? -1 : ((RB_U32((addr) + (n)) <= (start)) ? 1 : 0))
 
+/* ---- area map: the flat address space as plain values ----------------------
+ * (walker / caller contracts, tier A-len: at most RB_AMAX areas, RB_EMAX
+ * registers).  g_rb_an areas; area r maps  g_rb_ab[r] <= x < g_rb_ae[r].  The
+ * contracts tie the map to the real table once (RB_LINKED_A: base and
+ * mathematical end of every area; an end that fits 32 bit = "no wrap") and
+ * state everything else on the map: CBMC 6.11 pays for every textual pointer
+ * dereference, and a loop needs the facts at its OWN index, which a single
+ * ghost index cannot give.  Call-free macros: usable in requires/ensures,
+ * loop invariants and quantifier bodies; bounded quantifiers are expanded by
+ * the SAT back end. */
+#ifndef RB_AMAX
+#define RB_AMAX 16u          /* at most 16: RB_MAPPED spells out 16 areas */
+#endif
+#ifndef RB_EMAX
+#define RB_EMAX 64u
+#endif
+extern uint32_t g_rb_an, g_rb_ab[17], g_rb_ae[17];
+extern bool g_rb_aw[17];   /* area is writable (write callback and WRITEABLE flag) */
+#define RB_ALL_A(q, body) __CPROVER_forall { unsigned q; (q < RB_AMAX) ==> (body) }
+#define RB_ALL_E(q, body) __CPROVER_forall { unsigned q; (q < RB_EMAX) ==> (body) }
+#define RB_LINKED_A(t) \
+  (g_rb_an == (t)->areas && g_rb_an <= RB_AMAX \
+   && RB_ALL_A(q_la, IMPLIES(q_la < g_rb_an, g_rb_ab[q_la] == (t)->area[q_la].base && RB_M64(g_rb_ae[q_la]) == RB_A_END(&(t)->area[q_la]))))
+/* every area has at least one word */
+#define RB_MAP_WF RB_ALL_A(q_wf, IMPLIES(q_wf < g_rb_an, g_rb_ab[q_wf] < g_rb_ae[q_wf]))
+#define RB_MA_HAS(r, x) ((r) < g_rb_an && g_rb_ab[r] <= (x) && (x) < g_rb_ae[r])
+/* address x is mapped (bounded exists, spelled out so that it can stand inside a bounded forall) */
+#define RB_MAPPED(x) \
+  (RB_MA_HAS(0u, x) || RB_MA_HAS(1u, x) || RB_MA_HAS(2u, x) || RB_MA_HAS(3u, x) \
+   || RB_MA_HAS(4u, x) || RB_MA_HAS(5u, x) || RB_MA_HAS(6u, x) || RB_MA_HAS(7u, x) \
+   || RB_MA_HAS(8u, x) || RB_MA_HAS(9u, x) || RB_MA_HAS(10u, x) || RB_MA_HAS(11u, x) \
+   || RB_MA_HAS(12u, x) || RB_MA_HAS(13u, x) || RB_MA_HAS(14u, x) || RB_MA_HAS(15u, x))
+/* every area end strictly inside (lo, hi) is itself mapped: together with
+ * "lo is mapped" this says that all of [lo, hi) is mapped (an unmapped address
+ * has a first unmapped address at or below it, and that is lo or an area end) */
+#define RB_ENDS_MAPPED(lo, hi) \
+  RB_ALL_A(q_em, IMPLIES(q_em < g_rb_an && (lo) < g_rb_ae[q_em] && g_rb_ae[q_em] < (hi), RB_MAPPED(g_rb_ae[q_em])))
+/* areas ascending and disjoint (adjacent pairs; with RB_MAP_WF the whole chain) */
+#define RB_MAP_SORTED RB_ALL_A(q_ms, IMPLIES(q_ms + 1u < g_rb_an, g_rb_ae[q_ms] <= g_rb_ab[q_ms + 1u]))
+#define RB_LINKED_AW(t) RB_ALL_A(q_aw, IMPLIES(q_aw < g_rb_an, g_rb_aw[q_aw] == RB_AREA_WRITABLE(&(t)->area[q_aw])))
+#define RB_MA_RO(r, x) (RB_MA_HAS(r, x) && !g_rb_aw[r])
+/* address x lies in an area that is not writable */
+#define RB_READONLY_AT(x) \
+  (RB_MA_RO(0u, x) || RB_MA_RO(1u, x) || RB_MA_RO(2u, x) || RB_MA_RO(3u, x) \
+   || RB_MA_RO(4u, x) || RB_MA_RO(5u, x) || RB_MA_RO(6u, x) || RB_MA_RO(7u, x) \
+   || RB_MA_RO(8u, x) || RB_MA_RO(9u, x) || RB_MA_RO(10u, x) || RB_MA_RO(11u, x) \
+   || RB_MA_RO(12u, x) || RB_MA_RO(13u, x) || RB_MA_RO(14u, x) || RB_MA_RO(15u, x))
+/* every area before index i that overlaps [lo, hi) is writable */
+#define RB_WRITABLE_BELOW(i, lo, hi) \
+  RB_ALL_A(q_wb, IMPLIES(q_wb < (i) && q_wb < g_rb_an && g_rb_ab[q_wb] < (hi) && (lo) < g_rb_ae[q_wb], g_rb_aw[q_wb]))
+
+/* ---- register map: addresses and ends of the registers as plain values -------
+ * g_rb_en registers; register q occupies g_rb_ea[q] <= x < g_rb_ee[q].  Tied to
+ * the real list by RB_LINKED_E (which also says: value type, end inside the
+ * 32-bit space). */
+extern uint32_t g_rb_en, g_rb_ea[65], g_rb_ee[65];
+#define RB_ALL_ENTRIES_ENUM(t) RB_ALL_E(q_en, IMPLIES(q_en < (t)->entries, RB_TYPE_IS_ENUM((t)->entry[q_en].type)))
+#define RB_LINKED_E(t) \
+  (g_rb_en == (t)->entries && g_rb_en <= RB_EMAX \
+   && RB_ALL_E(q_le, IMPLIES(q_le < g_rb_en, RB_TYPE_IS_VALUE((t)->entry[q_le].type) && g_rb_ea[q_le] == (t)->entry[q_le].address \
+                                       && RB_M64(g_rb_ee[q_le]) == RB_E_END(&(t)->entry[q_le]))))
+/* registers ascending and disjoint (adjacent pairs; ends above starts by RB_LINKED_E) */
+#define RB_EMAP_SORTED RB_ALL_E(q_es, IMPLIES(q_es + 1u < g_rb_en, g_rb_ee[q_es] <= g_rb_ea[q_es + 1u]))
+/* ... stated between every index and index k (what a loop with an early exit needs) */
+#define RB_EMAP_SORTED_AT(k) \
+  RB_ALL_E(q_ea, IMPLIES((k) < g_rb_en && q_ea < g_rb_en, \
+      IMPLIES(q_ea < (k), g_rb_ee[q_ea] <= g_rb_ea[k]) && IMPLIES((k) < q_ea, g_rb_ee[k] <= g_rb_ea[q_ea])))
+/* register k overlaps [lo, hi) */
+#define RB_ME_OVERLAPS(k, lo, hi) (g_rb_ea[k] < (hi) && (lo) < g_rb_ee[k])
+/* assigns targets: the flags field of every register (spelled out for the cap:
+ * a whole-list target would let the loop contract havoc the list, and would
+ * not say that nothing but the marks may change) */
+#define RB_FLAGS_TGT(t, q) (q) < (t)->entries: (t)->entry[q].flags
+#define RB_FLAGS_TGT8(t, b) RB_FLAGS_TGT(t, (b) + 0u); RB_FLAGS_TGT(t, (b) + 1u); RB_FLAGS_TGT(t, (b) + 2u); RB_FLAGS_TGT(t, (b) + 3u); \
+   RB_FLAGS_TGT(t, (b) + 4u); RB_FLAGS_TGT(t, (b) + 5u); RB_FLAGS_TGT(t, (b) + 6u); RB_FLAGS_TGT(t, (b) + 7u)
+#if RB_EMAX <= 16
+#define RB_ALL_FLAGS_TGT(t) RB_FLAGS_TGT8(t, 0u); RB_FLAGS_TGT8(t, 8u)
+#else
+#define RB_ALL_FLAGS_TGT(t) RB_FLAGS_TGT8(t, 0u); RB_FLAGS_TGT8(t, 8u); RB_FLAGS_TGT8(t, 16u); RB_FLAGS_TGT8(t, 24u); \
+   RB_FLAGS_TGT8(t, 32u); RB_FLAGS_TGT8(t, 40u); RB_FLAGS_TGT8(t, 48u); RB_FLAGS_TGT8(t, 56u)
+#endif
+/* everything but the flags of register e is what the snapshot s says */
+#define RB_ENTRY_EQ_BUT_FLAGS(e, s) \
+  ((e)->type == (s)->type && (e)->default_value.u64 == (s)->default_value.u64 && (e)->address == (s)->address \
+   && (e)->area == (s)->area && (e)->offset == (s)->offset && (e)->check.type == (s)->check.type \
+   && (e)->check.arg.range.min.u64 == (s)->check.arg.range.min.u64 \
+   && (e)->check.arg.range.max.u64 == (s)->check.arg.range.max.u64 \
+   && (e)->name == (s)->name && (e)->user == (s)->user)
+#define RB_COVERED(lo, hi) (IMPLIES((lo) < (hi), RB_MAPPED(lo)) && RB_ENDS_MAPPED(lo, hi))
+
+/* ra_find_area_by_addr: no area before the result claims the address, for every
+ * index at once (A-len targets only) */
+#ifdef RB_SHORT_TABLES
+#define RB_FIND_NONE_BELOW(t, n, addr) \
+  IMPLIES((t)->areas <= RB_AMAX, RB_ALL_A(q_fn, IMPLIES(q_fn < (n), !RB_PART_OF32(&(t)->area[q_fn], addr))))
+#else
+#define RB_FIND_NONE_BELOW(t, n, addr) 1
+#endif
+
 /* list terminators as documented in register-table.h (REGISTER_AREA_END,
  * REGISTER_ENTRY_END) */
 #define RB_AREA_IS_END(a) \
